@@ -19,6 +19,7 @@ from gv.props import describe
 from gv.props.shared import branch_conditions
 from gv.props.shared import h5py_files_in_with
 from gv.props.shared import store_protocol
+from gv.props.shared import unfolded
 from gv.report import Ctx
 from gv.report import cname
 
@@ -62,22 +63,82 @@ class _Prefixed:
         return getattr(self._ctx, name)
 
 
+def _display(func: ast.AST, e: ast.AST, kinds: tuple) -> ast.AST | None:
+    """``e`` itself when it is a display of one of ``kinds``, or the single display a local unfolds to."""
+    if isinstance(e, kinds):
+        return e
+    if isinstance(e, ast.Name):
+        alts = unfolded(func, e) or []
+        if len(alts) == 1 and isinstance(alts[0], kinds):
+            return alts[0]
+    return None
+
+
+def _binding(func: ast.AST, call: ast.Call, callee: ast.FunctionDef, *, bound: bool = True) -> dict[str, ast.AST] | None:
+    """Parameter name -> argument expression of ``call`` for the signature of ``callee``, whatever the spelling of the
+    arguments: positional, keyword, ``*(a, b)`` / ``*[a, b]`` (display, possibly held in a local) and
+    ``**{"k": v}`` / ``**dict(k=v)``.  None when an argument list cannot be read (``*xs`` of unknown length, computed
+    keys) or does not fit the signature.  ``bound``: the call is made on an instance (``self`` is not an argument)."""
+    a = callee.args
+    if a.vararg is not None:
+        return None
+    params = [x.arg for x in [*a.posonlyargs, *a.args]]
+    static = any(getattr(d, "id", getattr(d, "attr", None)) == "staticmethod" for d in callee.decorator_list)
+    if bound and not static and params and params[0] in ("self", "cls"):
+        params = params[1:]
+    names = set(params) | {x.arg for x in a.kwonlyargs}
+    pos: list[ast.AST] = []
+    for x in call.args:
+        if isinstance(x, ast.Starred):
+            d = _display(func, x.value, (ast.Tuple, ast.List))
+            if d is None or any(isinstance(e, ast.Starred) for e in d.elts):
+                return None
+            pos += d.elts
+        else:
+            pos.append(x)
+    if len(pos) > len(params):
+        return None
+    bind = dict(zip(params, pos))
+    pairs: list[tuple[str, ast.AST]] = []
+    for k in call.keywords:
+        if k.arg is not None:
+            pairs.append((k.arg, k.value))
+            continue
+        d = _display(func, k.value, (ast.Dict, ast.Call))
+        if isinstance(d, ast.Dict) and all(isinstance(key, ast.Constant) and isinstance(key.value, str) for key in d.keys):
+            pairs += [(key.value, v) for key, v in zip(d.keys, d.values)]
+        elif isinstance(d, ast.Call) and dotted(d.func) == "dict" and not d.args and all(kw.arg is not None for kw in d.keywords):
+            pairs += [(kw.arg, kw.value) for kw in d.keywords]
+        else:
+            return None
+    for name, v in pairs:
+        if name in bind or (name not in names and a.kwarg is None):
+            return None  # TypeError at run time
+        bind[name] = v
+    return bind
+
+
 def check_backup_callback(ctx: Ctx) -> None:
     f = ctx.index.method(BS, "BaseScenario", "_execute_backup_callback")
     con = cname(BS, "BaseScenario", "_execute_backup_callback")
     calls = rules.self_calls(f, "save_optimization_history")
-    ok = len(calls) == 1 and const_value(kwarg(calls[0], "append")) is True and dotted(calls[0].args[0]) == "self._opt_hist_backup_path"
-    ctx.ob("12.1-append", con, ok, "the backup callback must export to the backup path in append mode: a full rewrite at every evaluation truncates the file first, so a crash during the export loses the whole history", node=(calls or [f])[0])
-    others = [c for c in walk_body(f) if isinstance(c, ast.Call) and c not in calls]
-    ctx.ob("12.1-append", con, not others, "the backup callback must do nothing else than exporting", node=(others or [f])[0], stmt="only the export")
     s = ctx.index.method(BS, "BaseScenario", "save_optimization_history")
+    b = (_binding(f, calls[0], s) or {}) if len(calls) == 1 else {}
+    ok = len(calls) == 1 and const_value(b.get("append")) is True and dotted(b.get("file_path")) == "self._opt_hist_backup_path"
+    ctx.ob("12.1-append", con, ok, "the backup callback must export to the backup path in append mode: a full rewrite at every evaluation truncates the file first, so a crash during the export loses the whole history", node=(calls or [f])[0])
+    # builtin constructors of the argument list itself (``**dict(append=True)``, ``*tuple(...)``) are part of the call
+    packing = {id(x) for c in calls for x in ast.walk(c) if x is not c and isinstance(x, ast.Call) and dotted(x.func) in ("dict", "tuple", "list")}
+    others = [c for c in walk_body(f) if isinstance(c, ast.Call) and c not in calls and id(c) not in packing]
+    ctx.ob("12.1-append", con, not others, "the backup callback must do nothing else than exporting", node=(others or [f])[0], stmt="only the export")
     cons = cname(BS, "BaseScenario", "save_optimization_history")
     h = [c for c in walk_body(s) if isinstance(c, ast.Call) and last_attr(c) == "to_hdf"]
-    ok = len(h) == 1 and dotted(kwarg(h[0], "append")) == "append" and dotted(kwarg(h[0], "file_path")) == "file_path"
+    b = (_binding(s, h[0], ctx.index.method("algos/optimization_problem.py", "OptimizationProblem", "to_hdf")) or {}) if len(h) == 1 else {}
+    ok = len(h) == 1 and dotted(b.get("append")) == "append" and dotted(b.get("file_path")) == "file_path"
     ctx.ob("12.1-append", cons, ok, "save_optimization_history must forward file_path and append to OptimizationProblem.to_hdf", node=(h or [s])[0])
     d = ctx.index.method(DB, "Database", "to_hdf")
     c = [x for x in walk_body(d) if isinstance(x, ast.Call) and last_attr(x) == "to_file"]
-    ok = len(c) == 1 and [dotted(a) for a in c[0].args[:3]] == ["self", "file_path", "append"]
+    b = (_binding(d, c[0], ctx.index.method(HD, "HDFDatabase", "to_file")) or {}) if len(c) == 1 else {}
+    ok = len(c) == 1 and [dotted(b.get(p_)) for p_ in ("database", "file_path", "append")] == ["self", "file_path", "append"]
     ctx.ob("12.1-append", cname(DB, "Database", "to_hdf"), ok, "Database.to_hdf must forward (self, file_path, append) to the HDF exporter", node=(c or [d])[0])
     # no handle on self anywhere in the export path
     n = 0
@@ -165,6 +226,76 @@ def check_backup_setup(ctx: Ctx) -> None:
     ctx.ob("12.3-load", con, ok, "the backup path used by the callback is the given file path", node=(path or [f])[0], stmt="backup path recorded")
 
 
+def _storing_calls(cls, f: ast.AST, is_db, depth: int = 2) -> list[ast.Call]:
+    """Calls of ``f`` that store a point in the database: ``<database>.store(...)`` (``is_db`` tells whether an
+    expression is the database), or a call of a method of the same class given the database as argument and that stores
+    in it on every path to its end (an extracted helper)."""
+    out = []
+    for c in walk_body(f):
+        if not isinstance(c, ast.Call) or not isinstance(c.func, ast.Attribute):
+            continue
+        if c.func.attr == "store" and is_db(c.func.value):
+            out.append(c)
+            continue
+        recv = c.func.value
+        h = cls.methods.get(c.func.attr)
+        if depth <= 0 or h is None or h is f or not (isinstance(recv, ast.Name) and recv.id in ("self", "cls", cls.name)):
+            continue
+        b = _binding(f, c, h, bound=recv.id != cls.name)
+        if b is None:
+            continue
+        db_params = {p_ for p_, a_ in b.items() if is_db(a_)}
+        if not db_params or any(isinstance(t, ast.Name) and isinstance(t.ctx, ast.Store) and t.id in db_params for t in walk_body(h)):
+            continue
+        inner = _storing_calls(cls, h, lambda e, names=db_params: isinstance(e, ast.Name) and e.id in names, depth - 1)
+        hc = cfg_of(h)
+        if inner and hc.must_pass(hc.entry, {hc.node_of(rules.enclosing_stmt(h, x)) for x in inner}):
+            out.append(c)
+    return out
+
+
+def _is_int(e: ast.AST | None, value: int) -> bool:
+    return isinstance(e, ast.Constant) and type(e.value) is int and e.value == value
+
+
+def _all_indices(func: ast.AST, lp: ast.For) -> ast.AST | None:
+    """The container ``G`` when the loop of ``lp`` runs once for every index 0..len(G)-1, in increasing order:
+    ``for i in range(len(G))``, ``range(0, len(G))``, ``range(0, len(G), 1)``, ``for i, _ in enumerate(G)``
+    (``enumerate(G, 0)``, ``enumerate(G, start=0)``), and one-to-one transformations of these
+    (``for s in map(str, range(len(G)))``, ``for s in (str(i) for i in range(len(G)))``)."""
+    return _index_iter(func, lp.iter, lp.target)
+
+
+def _index_iter(func: ast.AST, it: ast.AST, target: ast.AST | None) -> ast.AST | None:
+    # an element-wise image of an iterable has as many elements, in the same order
+    if isinstance(it, (ast.GeneratorExp, ast.ListComp)) and len(it.generators) == 1 and not it.generators[0].ifs and not it.generators[0].is_async:
+        return _index_iter(func, it.generators[0].iter, it.generators[0].target)
+    if not isinstance(it, ast.Call) or any(isinstance(a, ast.Starred) for a in it.args) or any(k.arg is None for k in it.keywords):
+        return None
+    fn, a = dotted(it.func), it.args
+    if fn == "map" and len(a) == 2 and not it.keywords:
+        return _index_iter(func, a[1], None)
+    if fn in ("list", "tuple", "iter") and len(a) == 1 and not it.keywords:
+        return _index_iter(func, a[0], target)
+    if fn == "range" and isinstance(target, (ast.Name, type(None))) and not it.keywords and 1 <= len(a) <= 3:
+        if len(a) >= 2 and not _is_int(a[0], 0):
+            return None
+        if len(a) == 3 and not _is_int(a[2], 1):
+            return None
+        stop = a[0] if len(a) == 1 else a[1]
+        if isinstance(stop, ast.Name):  # the length kept in a local
+            alts = unfolded(func, stop) or []
+            stop = alts[0] if len(alts) == 1 else stop
+        if isinstance(stop, ast.Call) and dotted(stop.func) == "len" and len(stop.args) == 1 and not stop.keywords:
+            return stop.args[0]
+        return None
+    if fn == "enumerate" and (target is None or (isinstance(target, ast.Tuple) and len(target.elts) == 2)):
+        first = a[1] if len(a) == 2 else next((k.value for k in it.keywords if k.arg == "start"), None)
+        if len(a) in (1, 2) and len(a) + len(it.keywords) <= 2 and all(k.arg == "start" for k in it.keywords) and (first is None or _is_int(first, 0)):
+            return a[0]
+    return None
+
+
 def check_reader_keeps_every_entry(ctx: Ctx) -> None:
     """12.5: loading a backup stores EVERY entry of the file (an entry without scalar values, or without any
     value, is still a point that was evaluated or seeded): no path of the loop skips the store."""
@@ -174,17 +305,18 @@ def check_reader_keeps_every_entry(ctx: Ctx) -> None:
     f = cls.methods["update_from_file"]
     con = cname(HD, cls.qualname, "update_from_file")
     cfg = cfg_of(f)
-    stores = [c for c in walk_body(f) if isinstance(c, ast.Call) and last_attr(c) == "store" and "database" in norm_stmt(c.func)]
-    loops = [lp for lp in stmts_of(f) if isinstance(lp, ast.For) and stores and stores[0] in list(ast.walk(lp))]
-    ok = len(stores) == 1 and len(loops) >= 1
+    # the stores of the entry: one call, or one call in each alternative of the loop body, possibly through a helper
+    stores = _storing_calls(cls, f, lambda e: "database" in norm_stmt(e))
+    loops = [lp for lp in stmts_of(f) if isinstance(lp, ast.For) and stores and all(any(x is c for x in ast.walk(lp)) for c in stores)]
+    ok = len(stores) >= 1 and len(loops) >= 1
     esc = None
     if ok:
         lp = loops[-1]
         head = cfg.node_of(lp)
         start = cfg.branch[(head, True)]
-        sn = cfg.node_of(rules.enclosing_stmt(f, stores[0]))
-        esc = cfg.path(start, head, avoid={sn})
-        ok = esc is None and "range(len(" in norm_stmt(lp.iter)
+        sns = {cfg.node_of(rules.enclosing_stmt(f, c)) for c in stores}
+        esc = cfg.path(start, head, avoid=sns)
+        ok = esc is None and _all_indices(f, lp) is not None
     ctx.ob("12.5-every-entry", con, bool(ok), "an iteration of the loading loop can end without storing the entry" + (f" ({cfg.describe_path(esc)})" if esc else "") + ": points evaluated before the crash are missing from the reloaded database and are re-executed", node=(stores or [f])[0], stmt="every entry of the file is stored")
 
 
